@@ -137,6 +137,69 @@ def run(rep, tier):
     rep.ob("R04.3", "errors-before-effects|update_impl", bool(okv) and bool(rest) and f.must_pass(okv, [e.block for e in rest]),
            "NotFound / unknown field / schema rejection return before any index or storage effect", f.file + ":%d" % f.line)
 
+    # the primary key is a unique field like any other (`_id`, declared unique by every schema) and it is the document's identity:
+    # an update that applies caller-supplied fields must either compare the field name with the key (and refuse / skip it) or
+    # re-stamp the id after applying them, before the document is written
+    docw = [e for e in f.calls_named(r"^anda_db::storage::Storage::(put|put_bytes)$")]
+    cmp_key = []
+    for e in f.calls_named(r"PartialEq.*::(eq|ne)$"):
+        for a in e.args:
+            k_ = (a.get("k") or {}) if isinstance(a, dict) else {}
+            if (k_.get("def") or "").endswith("Schema::ID_KEY") or k_.get("str") == "_id" or (k_.get("tyconst") or "").strip('"') == "_id":
+                cmp_key.append(e)
+        if any(o[0] == "const" and isinstance(o[1], dict) and ((o[1].get("def") or "").endswith("Schema::ID_KEY") or o[1].get("str") == "_id")
+               for a in e.args for o in f.slice_back_op(a)):
+            cmp_key.append(e)
+    stamp = [e for e in f.calls_named(r"anda_db_schema::document::Document::set_id$")
+             if setf and all(not f.can_reach([e.block], [s_.block]) for s_ in setf) and docw and all(f.dominates(e.block, w.block) for w in docw)]
+    rep.ob("R04.3", "primary-key-not-movable|update_impl", bool(setf) and (bool(cmp_key) or bool(stamp)),
+           "update_impl applies every caller-supplied field with set_field, `_id` included, and neither compares a field name with Schema::ID_KEY nor "
+           "re-stamps the id before the PUT: update(1, {_id: 2}) is accepted and data/1.cbor then carries _id = 2 - two live documents share the unique primary key",
+           (setf[0].where() if setf else f.file))
+
+    # ------------------------------------------------------------------ R04.7 a value is released only once giving it up is durable
+    rep.rule("R04.7", "a unique value is released in the index only after the write that gives it up (the document PUT of an update, the DELETE of a "
+             "remove) was acknowledged: until then another writer must not be able to become its owner", floor=2)
+    from . import c02 as _c02
+    fams_ = _c02.families(prog)
+    for name, wrx in (("update_impl", r"^anda_db::storage::Storage::(put|put_bytes)$"), ("remove_impl", r"^anda_db::storage::Storage::delete$")):
+        g = prog.fn(anda.COLL + "::" + name)
+        from .c01 import path_class as _pc
+        wr = [e for e in g.calls_named(wrx) if "fn:doc_path" in _pc(prog, g, e)]
+        okw = set()
+        for w in wr:
+            okw |= set(g.result_edges(w)[0])
+        # forward releases: B-tree update (removes the old value) / remove, in the function body or a closure invoked from a
+        # block that is not behind the write's Ok edge
+        early = []
+        bodies = [g] + [prog.fns[e.cid] for e in g.creates() if e.cid in prog.fns]
+        err_t = set()
+        for (sb, place, adt, m, els) in g.variant_edges():
+            if adt in ("core::result::Result", "core::ops::control_flow::ControlFlow"):
+                t = m.get("Err", m.get("Break"))
+                if t is not None:
+                    err_t.add(t)
+        for b_ in bodies:
+            ops = _c02.fam_ops(prog, [b_] + prog.closures_of(b_), fams_).get("btree_indexes", ())
+            rel = [(op, e) for (op, e) in ops if op in ("update", "remove", "batch_update") and e.kind == "call"]
+            if not rel:
+                continue
+            if b_ is g:
+                sites = [e.block for (_, e) in rel]
+            else:
+                sites = [e.block for e in g.calls() if b_.id in prog.callee_nodes(e)]
+                # the rollback closure (invoked only on error edges) restores, it does not release
+                if sites and all(any(g.dominates(t, sb_) for t in err_t) for sb_ in sites):
+                    continue
+            for sb_ in sites:
+                if not (okw and any(g.dominates(t, sb_) for t in okw)):
+                    early.append(sb_)
+        rep.ob("R04.7", "released-after-durable|%s" % name, bool(wr) and not early,
+               "%s takes the document's old values out of the B-tree indexes before its storage write is acknowledged: while that write is in flight another "
+               "writer is acknowledged as the owner of a unique value, and when the write then fails, is cancelled or the process dies, the stored document "
+               "still carries it (the rollback cannot reclaim it; recovery registers both documents)" % name,
+               g.file + ":%d" % (g.term(early[0]).get("ln", g.line) if early else g.line))
+
     # ------------------------------------------------------------------ R04.4 unique first
     rep.rule("R04.4", "unique B-tree indexes are placed at the front of the family (evaluated first): push only on the not-unique edge", floor=2)
     for fname in ("load_indexes", "create_btree_index"):
